@@ -489,7 +489,9 @@ Fixpoint c18_steps (prev : option osnap) (steps : list (bytes * eobs)) : N :=
   | (i, o) :: r =>
     match eo_snap o with
     | Some os =>
-      let lookups_ok := forallb (fun c => match c with
+      (* a selected language is an ISO 639-3 code: three letters *)
+      let code_ok := match os_lang os with Some l => len l =? 3 | None => true end in
+      let lookups_ok := code_ok && forallb (fun c => match c with
                                           | OcTpl _ l | OcMenu _ l => obytes_eqb l (os_lang os)
                                           | _ => true end) (eo_calls o) in
       let first_ok := match prev, first_func_lang (eo_calls o) with
